@@ -8,7 +8,7 @@ package indexing
 // every direct import for which the driver delivers a fact of the analyzer's fact type, with the delivered value
 // (hasFact / factAnn: assumed driver contract, /verif/contracts/lib/analysis.spec).
 //@ func iterOverPackages
-//@   props C06 C10 C01 C02 C03 C04
+//@   props C06 C12 C10 C01 C02 C03 C04
 //@   requires pass != nil && packageAnnotations != nil
 //@   ensures pass.Pkg == nil ==> len(result) == 0
 //@   ensures pass.Pkg != nil ==> len(result) >= 1 && result[0].fst == pass.Pkg && result[0].snd == packageAnnotations
@@ -33,7 +33,7 @@ package indexing
 //@ pure func immDeclared(pass *analysis.Pass, local *annotations.PackageAnnotations, p string, t string) bool = (pass.Pkg != nil && p == pass.Pkg.Path() && immHas(*local, t)) || (pass.Pkg != nil && pass.ImportPackageFact != nil && (exists j int :: 0 <= j && j < len(pass.Pkg.Imports()) && hasFact(pass, pass.Pkg.Imports()[j], createdTag(nil)) && pass.Pkg.Imports()[j].Path() == p && immHas(factAnn(pass, pass.Pkg.Imports()[j], createdTag(nil)), t)))
 
 //@ func BuildImmutableTypesIndex
-//@   props C06 C01 C09 C10
+//@   props C06 C01 C09 C12 C10
 //@   requires pass != nil && packageAnnotations != nil
 //@   ensures tmWF(result)
 //@   ensures forall p string, t string :: tmHas(result, p, t) <==> immDeclared(pass, packageAnnotations, p, t)
@@ -65,7 +65,7 @@ package indexing
 //@ pure func toMethDeclared(pass *analysis.Pass, local *annotations.PackageAnnotations, p string, t string, x string) bool = (srcLocal(pass, p) && toMethHas(*local, t, x)) || (exists j int :: srcImport(pass, j, p) && toMethHas(impAnn(pass, j), t, x))
 
 //@ func BuildConstructorIndex
-//@   props C06 C01 C02 C09 C10
+//@   props C06 C01 C02 C09 C12 C10
 //@   requires pass != nil && packageAnnotations != nil
 //@   ensures tarWF(result)
 //@   ensures forall p string, t string, x string :: contains(tarList(result, p, t), x) <==> ctorDeclared(pass, packageAnnotations, p, t, x)
@@ -81,7 +81,7 @@ package indexing
 //@   loop 3 invariant forall p string, t string, x string :: contains(tarList(result, p, t), x) <==> ((exists k int :: 0 <= k && k < $i1 && $seq1[k].fst.Path() == p && ctorHas(*$seq1[k].snd, t, x)) || (p == pkg.Path() && (exists i int :: 0 <= i && i < $i2 && ann.ConstructorAnnotations[i].OnType == t && contains(ann.ConstructorAnnotations[i].ConstructorNames, x))) || (p == pkg.Path() && t == annot.OnType && (exists n int :: 0 <= n && n < $i && annot.ConstructorNames[n] == x)))
 
 //@ func BuildMutableFieldsIndex
-//@   props C06 C01 C09 C10
+//@   props C06 C01 C09 C12 C10
 //@   requires pass != nil && packageAnnotations != nil
 //@   ensures tarWF(result)
 //@   ensures forall p string, t string, x string :: contains(tarList(result, p, t), x) <==> mutDeclared(pass, packageAnnotations, p, t, x)
@@ -94,7 +94,7 @@ package indexing
 //@   loop 2 invariant forall p string, t string, x string :: contains(tarList(result, p, t), x) <==> ((exists k int :: 0 <= k && k < $i1 && $seq1[k].fst.Path() == p && mutHas(*$seq1[k].snd, t, x)) || (p == pkg.Path() && (exists i int :: 0 <= i && i < $i && ann.MutableAnnotations[i].OnType == t && ann.MutableAnnotations[i].FieldName == x)))
 
 //@ func BuildTestOnlyFuncsIndex
-//@   props C06 C03 C09 C10
+//@   props C06 C03 C09 C12 C10
 //@   requires pass != nil && packageAnnotations != nil
 //@   ensures tarWF(result)
 //@   ensures forall p string, t string, x string :: contains(tarList(result, p, t), x) <==> toFuncDeclared(pass, packageAnnotations, p, t, x)
@@ -107,7 +107,7 @@ package indexing
 //@   loop 2 invariant forall p string, t string, x string :: contains(tarList(result, p, t), x) <==> ((exists k int :: 0 <= k && k < $i1 && $seq1[k].fst.Path() == p && toFuncHas(*$seq1[k].snd, t, x)) || (p == pkg.Path() && (exists i int :: 0 <= i && i < $i && ann.TestonlyAnnotations[i].Kind == annotations.TestOnlyOnFunc && ann.TestonlyAnnotations[i].ObjectName == t && x == t)))
 
 //@ func BuildTestOnlyMethodsIndex
-//@   props C06 C03 C09 C10
+//@   props C06 C03 C09 C12 C10
 //@   requires pass != nil && packageAnnotations != nil
 //@   ensures tarWF(result)
 //@   ensures forall p string, t string, x string :: contains(tarList(result, p, t), x) <==> toMethDeclared(pass, packageAnnotations, p, t, x)
@@ -120,7 +120,7 @@ package indexing
 //@   loop 2 invariant forall p string, t string, x string :: contains(tarList(result, p, t), x) <==> ((exists k int :: 0 <= k && k < $i1 && $seq1[k].fst.Path() == p && toMethHas(*$seq1[k].snd, t, x)) || (p == pkg.Path() && (exists i int :: 0 <= i && i < $i && ann.TestonlyAnnotations[i].Kind == annotations.TestOnlyOnMethod && ann.TestonlyAnnotations[i].ReceiverType == t && ann.TestonlyAnnotations[i].ObjectName == x)))
 
 //@ func BuildTestOnlyTypesIndex
-//@   props C06 C03 C09 C10
+//@   props C06 C03 C09 C12 C10
 //@   requires pass != nil && packageAnnotations != nil
 //@   ensures tmWF(result)
 //@   ensures forall p string, t string :: tmHas(result, p, t) <==> toTypeDeclared(pass, packageAnnotations, p, t)
@@ -145,7 +145,7 @@ package indexing
 // The @packageonly index: every allow-list of the index is the union of the lists of all annotation lines on that item,
 // over this package and the direct imports with a fact.
 //@ func BuildPackageOnlyIndex
-//@   props C06 C04 C09 C10
+//@   props C06 C04 C09 C12 C10
 //@   requires pass != nil && packageAnnotations != nil
 //@   fresh
 //@   ensures result != nil && amWF(result)
